@@ -476,6 +476,15 @@ func runStream(p *Property, st *Stream, d *Driver, tier string, seed uint64, rep
 		if f.model != f.impl {
 			sr.Disagreements++
 		}
+		// a failure that carries a class key is identified without shrinking (and never dropped by the cap)
+		if ck := caseKey(st.Name, c); strings.HasPrefix(ck, st.Name+":class: ") {
+			key := ck + "|" + kind
+			if !seenKeys[key] {
+				seenKeys[key] = true
+				res.Violations = append(res.Violations, &Violation{Kind: kind, Stream: st.Name, Case: caseJSON(c), Line: c.Line(), Impl: clip(f.impl, 2000), Model: clip(f.model, 2000), Oracle: f.oracle, Key: ck, Original: caseJSON(c)})
+			}
+			continue
+		}
 		maxShrinks, budget := 60, 400
 		if st.MaxShrinks > 0 {
 			maxShrinks = st.MaxShrinks
